@@ -239,6 +239,17 @@ def catalogue(P, with_checkers=True):
             add('pda_accepts_word@12#%d' % i, with_limit(pa.pda_accepts_word, 12), B + [lambda RP=RP: (RP[1][0] if RP[1] else '')], d_val)
         else:
             add('generate_language(PDA)#%d' % i, lg.generate_language, B + [lambda: 3], d_val)
+    # a PDA whose epsilon closure is cut off at the limit (two pushing epsilon loops, two branches that pop one kind of symbol each):
+    # WHICH stack contents survive the cut-off depends on the order in which pending configurations are taken; the answers for
+    # a^k / b^k around the depth reached must be the same in every interpreter
+    RPt = pd.make(['i', 'p', 'd', 'e', 'f'], 'ab', 'XYZ', [('i', None, None, 'p', 'Z'), ('p', None, None, 'p', 'X'), ('p', None, None, 'p', 'Y'), ('p', 'a', 'X', 'd', None),
+                                                              ('p', 'b', 'Y', 'e', None), ('d', 'a', 'X', 'd', None), ('e', 'b', 'Y', 'e', None), ('d', None, 'Z', 'f', None), ('e', None, 'Z', 'f', None)], 'i', ['f'])
+    Bt = [lambda: adapt.build_pda(RPt, '')]
+    for (lim, ks) in ((1000, (8, 9, 10, 11)), (100, (5, 6, 7)), (30, (3, 4, 5)), (10, (2, 3))):
+        for k in ks:
+            for c in 'ab':
+                add('pda_accepts_word@%d#cutoff/%s^%d' % (lim, c, k), with_limit(pa.pda_accepts_word, lim), Bt + [lambda c=c, k=k: c * k], d_val)
+        add('pda_words_up_to_n@%d#cutoff' % lim, with_limit(pa.pda_words_up_to_n, lim), Bt + [lambda lim=lim: 3 if lim >= 100 else 4], d_val)
     for i, RG in enumerate(P['cfg']):
         B = [lambda RG=RG: adapt.build_cfg(RG)]
         for f in ('cfg_to_chomsky', 'cfg_remove_epsilon_rules', 'cfg_eliminate_unit_rules', 'cfg_add_new_start_variable', 'cfg_make_rules_of_length_two',
